@@ -205,7 +205,7 @@ static std::string dec(const std::string& e)
 
 struct Case
 {
-   int fmt = LP, mode = 0, gz = 0, names = 1, pre = 0, expValid = 0;
+   int fmt = LP, mode = 0, gz = 0, names = 1, pre = 0, expValid = 0, twice = 0;
    double cpu = 3.0;                    // CPU seconds allowed for the read itself
    std::string file;                    // reference form: bytes of this file ...
    long trunc = -1;                     // ... cut to this length ...
@@ -231,7 +231,7 @@ struct Case
    {
       std::ostringstream o;
       o << "fmt=" << FMT[fmt] << ";mode=" << (mode ? "rational" : "real") << ";gz=" << gz << ";names=" << names << ";pre=" << pre
-        << ";exp=" << expValid << ";cpu=" << cpu;
+        << ";exp=" << expValid << ";ab=" << twice << ";cpu=" << cpu;
       if(trunc >= 0) o << ";trunc=" << trunc;
       if(!subs.empty())
       {
@@ -261,6 +261,7 @@ struct Case
          else if(k == "names") c.names = atoi(v.c_str());
          else if(k == "pre") c.pre = atoi(v.c_str());
          else if(k == "exp") c.expValid = atoi(v.c_str());
+         else if(k == "ab") c.twice = atoi(v.c_str());
          else if(k == "cpu") c.cpu = atof(v.c_str());
          else if(k == "trunc") c.trunc = atol(v.c_str());
          else if(k == "gztrunc") c.gztrunc = atol(v.c_str());
@@ -360,6 +361,7 @@ static std::string suffix_of(const Case& c, const Feat& f, int stage)
    if(f.empty) s += "+empty";
    if(c.mode && f.zeroDen && (c.fmt == LP || c.fmt == MPS)) s += "+zero-denominator";
    if(f.hugeExp && c.fmt != BAS) s += "+exponent>308";
+   if(g_stage && (g_stage[1] & 1)) s += "+duplicate-matrix-entry";     // observed by the invariant check of this case
    s += std::string("/stage=") + STAGE[stage < 9 ? stage : 0];
    return s;
 }
@@ -379,16 +381,49 @@ struct Outcome
    int sanStage = -1;
    int nonfinite = 0, lowerGtUpper = 0, lhsGtRhs = 0, failNonEmpty = 0, spxExc = 0;
 };
+// state of the case process (set by the worker-side code further down)
+static Ctx* g_ctx = nullptr;
+static const Case* g_case = nullptr;
+static Feat g_ft;
+static std::string g_cs;
+static uint64_t g_emitted[32];      // signatures already written for the current case
+static int g_nemitted = 0;
+// A violation is written to the result sink at once (the case process may not live to the end of the sequence) and without
+// leaving anything allocated (the heap is being measured); it is also kept in the outcome, which is part of the digest.
 static void add_viol(Outcome& o, int stage, const char* sig, const char* fmt, ...)
 {
-   if(o.nviol >= 8) return;
-   Viol& v = o.viol[o.nviol++];
-   snprintf(v.sig, sizeof v.sig, "%s", sig);
+   char detail[260];
    va_list ap;
    va_start(ap, fmt);
-   vsnprintf(v.detail, sizeof v.detail, fmt, ap);
+   vsnprintf(detail, sizeof detail, fmt, ap);
    va_end(ap);
-   v.stage = stage;
+   if(o.nviol < 8)
+   {
+      Viol& v = o.viol[o.nviol++];
+      snprintf(v.sig, sizeof v.sig, "%s", sig);
+      snprintf(v.detail, sizeof v.detail, "%s", detail);
+      v.stage = stage;
+   }
+   if(g_ctx && g_ctx->sink && g_case)
+   {
+      std::string full = sig + suffix_of(*g_case, g_ft, stage);
+      uint64_t h = fnv_str(full);
+      for(int i = 0; i < g_nemitted; ++i) if(g_emitted[i] == h) return;
+      if(g_nemitted < 32) g_emitted[g_nemitted++] = h;
+      // the case itself is written out only for the first three occurrences of a signature in this process
+      static uint64_t seenSig[2048];
+      static unsigned char seenCnt[2048];
+      size_t slot = h % 2048;
+      for(int probe = 0; probe < 2048 && seenSig[slot] != 0 && seenSig[slot] != h; ++probe) slot = (slot + 1) % 2048;
+      seenSig[slot] = h;
+      if(seenCnt[slot] < 3)
+      {
+         seenCnt[slot]++;
+         fprintf(g_ctx->sink, "N\t%s\t1\nV\t%s\t%s\t%s\n", lesc(full).c_str(), lesc(full).c_str(), lesc(g_cs).c_str(), lesc(detail).c_str());
+      }
+      else fprintf(g_ctx->sink, "N\t%s\t1\n", lesc(full).c_str());
+      fflush(g_ctx->sink);
+   }
 }
 static void note_san(Outcome& o, int stage)
 {
@@ -548,7 +583,11 @@ static void run_core(const Case& c, const Feat& ft, const char* path, const char
             const SPxLPBase<double>& lp = *s->_realLP;
             char why[200];
             if(lp.nRows() != o.nrows || lp.nCols() != o.ncols) add_viol(o, ST_INV, "lp-inconsistent:dimensions", "numRows/numCols %dx%d but stored LP %dx%d", o.nrows, o.ncols, lp.nRows(), lp.nCols());
-            else if(!mirror_ok(lp, why, sizeof why)) add_viol(o, ST_INV, "lp-inconsistent:row-column-mirror", "%s", why);
+            else if(!mirror_ok(lp, why, sizeof why))
+            {
+               if(g_stage && strstr(why, "twice")) g_stage[1] |= 1;
+               add_viol(o, ST_INV, "lp-inconsistent:row-column-mirror", "%s", why);
+            }
             if(s->_rationalLP)
             {
                const SPxLPRational& ql = *s->_rationalLP;
@@ -664,10 +703,6 @@ static void write_file(const std::string& path, const std::string& bytes)
 }
 static std::string g_crashpath;
 static bool g_replay = false;
-static Ctx* g_ctx = nullptr;
-static const Case* g_case = nullptr;
-static Feat g_ft;
-static std::string g_cs;
 
 // ---- symbol lookup without an external symbolizer: the ELF symbol table of the executable itself -----------
 struct Sym { uint64_t addr, size; std::string name; };
@@ -796,14 +831,6 @@ static void case_body(const Case& c, const Feat& ft, const std::string& cs, Ctx&
    ctx.flushDelta();     // what is known about the input survives a later death of this process
 
    std::set<std::string> seen;
-   auto emit = [&](const Outcome & o)
-   {
-      for(int i = 0; i < o.nviol; ++i)
-      {
-         std::string sig = o.viol[i].sig + suffix_of(c, ft, o.viol[i].stage);
-         if(seen.insert(sig).second) ctx.violation(sig, cs, o.viol[i].detail);
-      }
-   };
    auto ubsan = [&](const Outcome & o)
    {
       std::string ub = take_ubsan_report();
@@ -813,10 +840,14 @@ static void case_body(const Case& c, const Feat& ft, const std::string& cs, Ctx&
          if(seen.insert(sig).second) ctx.violation(sig, cs, "UndefinedBehaviorSanitizer report (replay prints it)");
       }
    };
+   // The sequence is executed once; for the families marked "ab" a second time with a different fill of the uninitialised
+   // stack (the outcome must be the same).  Whenever the live heap is larger after an execution than before it, the
+   // sequence is repeated twice more: growth in both repetitions is a leak (the first execution may legitimately
+   // allocate one-time state).
    Outcome A, B;
-   run_core(c, ft, g_inpath.c_str(), g_validLP.c_str(), g_validMPS.c_str(), 0x2A, A);
+   int fillA = c.twice ? 0x2A : ((fnv_str(cs) & 1) ? 0x2A : 0xAA);
+   run_core(c, ft, g_inpath.c_str(), g_validLP.c_str(), g_validMPS.c_str(), fillA, A);
    ctx.count("reader_runs");
-   emit(A);
    ubsan(A);
    static const char* RES[] = {"reported_failure", "success", "spx_exception", "foreign_exception"};
    const char* res = RES[A.readRes >= 0 && A.readRes < 4 ? A.readRes : 0];
@@ -835,35 +866,40 @@ static void case_body(const Case& c, const Feat& ft, const std::string& cs, Ctx&
    if(A.failNonEmpty) ctx.count("read_failure_left_nonempty_lp");
    if(c.fmt == BAS && A.readRes == 1) ctx.count("basis_read_ok.basics=" + std::to_string(A.basics));
    if(A.spxExc) ctx.count("spx_exceptions_escaped_some_stage");
-   // second execution: other stack fill; the outcome must not depend on it and the heap must be back where it was
-   run_core(c, ft, g_inpath.c_str(), g_validLP.c_str(), g_validMPS.c_str(), 0xAA, B);
-   ctx.count("reader_runs");
-   emit(B);
-   ubsan(B);
-   if(A.digest != B.digest)
+   if(c.twice || A.heapDelta > 0)
    {
-      char det[300];
-      snprintf(det, sizeof det, "stack fill 0x2A: read=%d dims %dx%d status %d/%d; stack fill 0xAA: read=%d dims %dx%d status %d/%d",
-               A.readRes, A.nrows, A.ncols, A.st1, A.st2, B.readRes, B.nrows, B.ncols, B.st1, B.st2);
-      ctx.violation("outcome-depends-on-uninitialised-stack" + suffix_of(c, ft, ST_COMPARE), cs, det);
-   }
-   if(B.heapDelta > 0)
-   {
-      Outcome C;
-      run_core(c, ft, g_inpath.c_str(), g_validLP.c_str(), g_validMPS.c_str(), 0x2A, C);
+      run_core(c, ft, g_inpath.c_str(), g_validLP.c_str(), g_validMPS.c_str(), c.twice ? 0xAA : fillA, B);
       ctx.count("reader_runs");
-#ifdef VX_ASAN
-      const long LEAKMIN = 1;        // sanitizer allocator statistics are exact
-#else
-      const long LEAKMIN = 65536;    // glibc's mallinfo includes chunk overhead and cache effects
-#endif
-      if(C.heapDelta >= LEAKMIN && B.heapDelta >= LEAKMIN)
+      ubsan(B);
+      if(c.twice)
       {
-         char det[240];
-         snprintf(det, sizeof det, "live heap grows by %ld and %ld bytes in the 2nd and 3rd execution of the same sequence (all objects destroyed in between); read result: %s", B.heapDelta, C.heapDelta, res);
-         ctx.violation("leak" + suffix_of(c, ft, ST_TEARDOWN), cs, det);
+         ctx.count("cases_executed_with_two_stack_fills");
+         if(A.digest != B.digest)
+         {
+            char det[300];
+            snprintf(det, sizeof det, "stack fill 0x2A: read=%d dims %dx%d status %d/%d; stack fill 0xAA: read=%d dims %dx%d status %d/%d",
+                     A.readRes, A.nrows, A.ncols, A.st1, A.st2, B.readRes, B.nrows, B.ncols, B.st1, B.st2);
+            ctx.violation("outcome-depends-on-uninitialised-stack" + suffix_of(c, ft, ST_COMPARE), cs, det);
+         }
       }
-      else ctx.count("heap_growth_not_repeated");
+      if(B.heapDelta > 0)
+      {
+         Outcome C;
+         run_core(c, ft, g_inpath.c_str(), g_validLP.c_str(), g_validMPS.c_str(), fillA, C);
+         ctx.count("reader_runs");
+#ifdef VX_ASAN
+         const long LEAKMIN = 1;        // sanitizer allocator statistics are exact
+#else
+         const long LEAKMIN = 65536;    // glibc's mallinfo includes chunk overhead and cache effects
+#endif
+         if(C.heapDelta >= LEAKMIN && B.heapDelta >= LEAKMIN)
+         {
+            char det[240];
+            snprintf(det, sizeof det, "live heap grows by %ld and %ld bytes in the 2nd and 3rd execution of the same sequence (all objects destroyed in between); read result: %s", B.heapDelta, C.heapDelta, res);
+            ctx.violation("leak" + suffix_of(c, ft, ST_TEARDOWN), cs, det);
+         }
+         else ctx.count("heap_growth_not_repeated");
+      }
    }
    if(wantSample)
    {
@@ -916,6 +952,7 @@ static void child_loop(int rfd, int wfd, Ctx& ctx)
       g_ft = features(c, d);
       g_case = &c;
       g_cs = c.str();
+      g_nemitted = 0;
       alarm(WALL_LIMIT_S);
       case_body(c, g_ft, g_cs, ctx, wantSample);
       alarm(0);
@@ -968,6 +1005,7 @@ static uint64_t exec_case(const Case& c, Ctx& ctx, const std::string& outdir)
    if(g_sess.owner != getpid()) g_sess = Session();     // a session inherited from the parent process is not ours
    if(g_sess.pid < 0) session_start(ctx);
    *g_stage = ST_SETUP;
+   g_stage[1] = 0;
    std::string msg = std::string(wantSample ? "1" : "0") + " " + cs + "\n";
    bool sent = true;
    for(size_t off = 0; off < msg.size();)
@@ -1389,12 +1427,11 @@ int main(int argc, char** argv)
       };
       fams.push_back(f);
       // one level deeper: all sequences of length klp+1 over a 20-letter sub-alphabet at the start of the constraints section
-      // (thorough: also at the start of the file)
       static const std::vector<int> R20 = {0, 1, 2, 3, 5, 6, 7, 8, 9, 10, 12, 13, 15, 16, 18, 20, 22, 23, 24, 25};
       int k2 = klp + 1;
-      uint64_t A = T_LP.size(), A2 = R20.size(), S2 = ipow(A2, k2), nc2 = thorough ? 2 : 1;
+      uint64_t A = T_LP.size(), A2 = R20.size(), S2 = ipow(A2, k2), nc2 = 1;
       Family g;
-      g.name = "LP tokens k=" + std::to_string(k2) + " (20-letter alphabet) x " + (thorough ? "{start, constraints}" : "{constraints}") + " x 2 modes";
+      g.name = "LP tokens k=" + std::to_string(k2) + " (20-letter alphabet) at the start of the constraints section x 2 modes";
       g.N = S2 * nc2 * 2;
       g.gen = [ = ](uint64_t idx)
       {
@@ -1420,6 +1457,7 @@ int main(int argc, char** argv)
          c.fmt = LP; c.cpu = TOKCPU;
          c.mode = idx % 2; idx /= 2;
          if(idx % 2) c.gz = 1; else c.names = 0;
+         c.twice = 1;
          idx /= 2;
          uint64_t cx = idx % nctx; idx /= nctx;
          c.data = render_lp(LPCTX[cx / 2], cx % 2 == 0, seq_at(idx, A, k1));
@@ -1456,6 +1494,7 @@ int main(int argc, char** argv)
          c.fmt = MPS; c.cpu = TOKCPU;
          c.mode = idx % 2; idx /= 2;
          if(idx % 2) c.gz = 1; else c.names = 0;
+         c.twice = 1;
          idx /= 2;
          uint64_t cx = idx % nctx; idx /= nctx;
          bool rest = cx < MPSCTX.size();
@@ -1686,6 +1725,7 @@ int main(int argc, char** argv)
             }
          }
       Family f;
+      for(auto& cc : list) cc.twice = 1;
       f.name = "valid variants (long lines, longest legal names) with known optimum";
       f.N = list.size();
       f.gen = [](uint64_t idx) { return list[idx]; };
@@ -1719,6 +1759,7 @@ int main(int argc, char** argv)
                list.push_back(c);
             }
       Family f;
+      for(auto& cc : list) cc.twice = 1;
       f.name = "LP names / labels / numbers of 1022..16384 characters at 12 positions x 2 modes";
       f.N = list.size();
       f.gen = [](uint64_t idx) { return list[idx]; };
@@ -1754,6 +1795,7 @@ int main(int argc, char** argv)
                list.push_back(c);
             }
       Family f;
+      for(auto& cc : list) cc.twice = 1;
       f.name = "duplicate and colliding names in LP and MPS files x {name sets, none} x 2 modes";
       f.N = list.size();
       f.gen = [](uint64_t idx) { return list[idx]; };
@@ -1779,6 +1821,7 @@ int main(int argc, char** argv)
          c.mode = idx % 2; idx /= 2;
          c.gz = idx % 2; idx /= 2;
          c.file = sd.file; c.data = sd.data; c.trunc = (long)idx;
+         c.twice = sd.file.empty();
          if(c.gz && sd.fmt != LP && sd.fmt != SET && idx % 8 != 0) c.skip = true;   // hang-prone formats: gz only at every 8th offset
          return c;
       };
@@ -1837,6 +1880,7 @@ int main(int argc, char** argv)
          int b = MENU[idx % 7]; idx /= 7;
          c.file = sd.file; c.data = sd.data;
          c.subs.push_back({(long)idx, b});
+         c.twice = sd.file.empty();
          if((unsigned char)base[idx] == (unsigned char)b) c.skip = true;
          return c;
       };
@@ -1883,7 +1927,7 @@ int main(int argc, char** argv)
          f.gen = [ = ](uint64_t idx)
          {
             Case c;
-            c.fmt = which ? MPS : LP; c.cpu = 0.5; c.gz = 1;
+            c.fmt = which ? MPS : LP; c.cpu = 0.5; c.gz = 1; c.twice = 1;
             c.mode = idx % 2; idx /= 2;
             c.data = plain;
             if(idx < zl) c.gztrunc = (long)idx;
